@@ -42,7 +42,27 @@ def section_path(note) -> str:
     return out
 
 
-def xnote(n) -> dict:
+def written_notes(page):
+    """(note, section label) for every note of a compiled page, from the page structure (compiled notes carry no back links)"""
+    from zorg.domain.models import H1
+
+    out = []
+
+    def walk(sec, titles):
+        t = titles + ([sec.title] if (sec.title or not isinstance(sec, H1)) else [])
+        for b in sec.blocks:
+            for n in b.notes:
+                out.append((n, " | ".join(t)))
+        for attr in ("h2s", "h3s", "h4s"):
+            for c in getattr(sec, attr, []):
+                walk(c, t)
+
+    for h1 in ([page.h0] if page.h0 else []) + list(page.h1s):
+        walk(h1, [])
+    return out
+
+
+def xnote(n, section=None) -> dict:
     st = n.todo_payload.status.name if n.todo_payload else None
     return {
         "text": n.to_string().rstrip(),
@@ -54,9 +74,24 @@ def xnote(n) -> dict:
         "mdate": "%04d%02d%02d" % (n.modify_date.year, n.modify_date.month, n.modify_date.day),
         "areas": list(n.areas), "contexts": list(n.contexts), "people": list(n.people), "projects": list(n.projects), "links": list(n.links),
         "props": [[k, v] for k, v in n.properties.items()],
-        "section": section_path(n),
+        "section": section_path(n) if section is None else section,
         "zid": n.zid,
     }
+
+
+def copy_note_across(rng, files):
+    """a note (with its ZID) copied to the end of another page: the same ZID on two pages is a legal index content"""
+    import re
+
+    if len(files) < 2 or rng.random() > 0.35:
+        return files
+    a, b = rng.sample(sorted(files), 2)
+    cands = [l for l in files[a].split("\n") if re.match(r"^[-ox~<>] (P\d )?(\d{6} )?\d{6}#\w\w ", l)]
+    if not cands:
+        return files
+    out = dict(files)
+    out[b] = files[b].rstrip("\n") + "\n\n" + rng.choice(cands) + " (copied)\n"
+    return out
 
 
 def group_key(g: str, x: dict) -> str:
@@ -155,9 +190,26 @@ def spec_text(q, xs, none_as_string=False) -> str:
     return rec(xs, 1).strip()
 
 
+def canon_values(q, text: str) -> str:
+    """For value selections (tags, property keys / values, links, files) that are not ordered by alpha the statement fixes the SET of
+    values of a group, not their order (it follows the storage order of a note's properties / tags): runs of value lines are sorted."""
+    if q["select"] == "note" or q["count"] or (bool(q["orders"]) and set(q["orders"]) == {"alpha"}):
+        return text
+    out, run = [], []
+    for line in text.split("\n"):
+        if line == "" or line.startswith(tuple(MARK.values())):
+            out += sorted(run)
+            run = []
+            out.append(line)
+        else:
+            run.append(line)
+    out += sorted(run)
+    return "\n".join(out)
+
+
 def oracle(q, xs, text):
     want = spec_text(q, xs)
-    if text == want:
+    if canon_values(q, text) == canon_values(q, want):
         return None
     a, b = text.split("\n"), want.split("\n")
     k = next((j for j in range(min(len(a), len(b))) if a[j] != b[j]), min(len(a), len(b)))
@@ -197,7 +249,7 @@ def one_index(ctx, res, rng, job):
     if zdir.exists():
         shutil.rmtree(zdir)
     zdir.mkdir(parents=True)
-    files = CORPUS_ITEMS[i + len(CORPUS_ITEMS)]["files"] if i < 0 else G.gen_dir(rng, npages=(2, 4), with_zid=0.7, date_prob=0.35)
+    files = CORPUS_ITEMS[i + len(CORPUS_ITEMS)]["files"] if i < 0 else copy_note_across(rng, G.gen_dir(rng, npages=(2, 4), with_zid=0.7, date_prob=0.35))
     # pages with more than 9 / 99 lines so that line numbers have different digit counts
     G.write_dir(zdir, files)
     Z.clear_engine_cache()
@@ -209,12 +261,32 @@ def one_index(ctx, res, rng, job):
     url = f"sqlite:///{zdir}/.zorg/zorg.db"
     queries = CORPUS_ITEMS[i + len(CORPUS_ITEMS)]["queries"] if i < 0 else [gen_query(rng, None) for _ in range(n_q)]
     reqs, metas = [], []
+    # the notes as written in the files (compiled here, independently of the repo's row -> note resolution), by (page, line)
+    from zorg.service.compiler import walk_zorg_page
+    from zorg.storage.sql._query_converter import to_sql_select
+
+    written = {}
+    with freeze_time(dt.datetime(*TODAY, 12, 0)):
+        for pth in sorted(zdir.rglob("*.zo")):
+            if ".zorg" in pth.parts:
+                continue
+            rel = str(pth.relative_to(zdir))
+            for n, label in written_notes(walk_zorg_page(zdir, pth)):
+                x = xnote(n, label)
+                x["path"] = rel
+                written[(rel, n.line_no)] = x
     for q in queries:
         with freeze_time(dt.datetime(*TODAY, 12, 0)):
             try:
                 with SQLSession(zdir, url) as session:
-                    notes = session.repo.get_notes_by_query(build_zorg_query(q["text"]).where)
-                    xs = [xnote(n) for n in notes]
+                    rows = session._session.exec(to_sql_select(build_zorg_query(q["text"]).where, session._session)).all()
+                    keys = [(r.page_path, r.line_no) for r in rows]
+                    row_dates = [(r.create_date.strftime("%Y%m%d"), r.modify_date.strftime("%Y%m%d")) for r in rows]
+                if any(k not in written for k in keys):
+                    res.failures.append(C.Failure(f"query {q['text']!r}: the index returns rows {[k for k in keys if k not in written][:2]} that are no notes of the files", {"files": files, "query": q}))
+                    continue
+                # dates are taken from the index rows: for create dates outside 2000-2099 file and index differ (known finding of C05)
+                xs = [{**written[k], "cdate": cd, "mdate": md} for k, (cd, md) in zip(keys, row_dates)]
                 text = swog.execute(zdir, url, q["text"])
             except Exception as e:  # noqa
                 res.failures.append(C.Failure(f"query {q['text']!r} raised {type(e).__name__}: {e}", {"files": files, "query": q}))
@@ -238,7 +310,7 @@ def one_index(ctx, res, rng, job):
             if "err" in m:
                 res.unsupported += 1
                 continue
-            if m["text"] != text:
+            if canon_values(q, m["text"]) != canon_values(q, text):
                 a, b = m["text"], text
                 k = next((j for j in range(min(len(a), len(b))) if a[j] != b[j]), min(len(a), len(b)))
                 res.disagreements.append(C.Failure(f"{q['text']!r}: model output differs from swog.execute at char {k}: model {a[max(0,k-60):k+80]!r} impl {b[max(0,k-60):k+80]!r}", {"files": files, "query": q}, "correspondence"))
